@@ -373,7 +373,22 @@ func (g *gen) perturb(f []*rfc6.Node) []*rfc6.Node {
 		i := rapid.IntRange(0, len(p.Subs)).Draw(t, "insert-at")
 		p.Subs = append(p.Subs[:i:i], append([]*rfc6.Node{c}, p.Subs[i:]...)...)
 	}
-	switch rapid.IntRange(0, 7).Draw(t, "perturbation") {
+	switch rapid.IntRange(0, 8).Draw(t, "perturbation") {
+	case 8: // put a prefix in front of a keyword (often a mandatory one): "p:type string;" is an extension, not a type
+		var cands []*rfc6.Node
+		for _, n := range all {
+			switch n.Keyword {
+			case "type", "prefix", "namespace", "belongs-to", "deviate", "key", "config":
+				cands = append(cands, n)
+			}
+		}
+		if len(cands) == 0 {
+			cands = all
+		}
+		v := cands[rapid.IntRange(0, len(cands)-1).Draw(t, "prefixed-victim")]
+		if !strings.Contains(v.Keyword, ":") {
+			v.Keyword = rapid.SampledFrom([]string{"p:", "m:", "x-y:"}).Draw(t, "kw-prefix") + v.Keyword
+		}
 	case 0: // keyword not valid in that context: another YANG keyword
 		p := pick("parent")
 		k := rapid.SampledFrom(astinfo.Keywords()).Draw(t, "foreign")
